@@ -6,6 +6,13 @@ package a20
 
 import (
 	"context"
+	"crypto/ecdsa"
+	"crypto/elliptic"
+	"crypto/rand"
+	"crypto/tls"
+	"crypto/x509"
+	"crypto/x509/pkix"
+	"math/big"
 	"fmt"
 	"io"
 	"log/slog"
@@ -20,6 +27,7 @@ import (
 	"github.com/yandex/pandora/examples/grpc/server"
 	"google.golang.org/grpc"
 	"google.golang.org/grpc/codes"
+	"google.golang.org/grpc/credentials"
 	"google.golang.org/grpc/metadata"
 	"google.golang.org/grpc/reflection"
 	"google.golang.org/grpc/status"
@@ -229,10 +237,34 @@ func CanonMsg(m proto.Message) string {
 }
 
 // Start launches the target on a free loopback port.
-func Start() (*Srv, error) {
+func Start() (*Srv, error) { return start() }
+
+// StartTLS launches the target behind TLS with a throw-away self-signed certificate (pandora's `tls: true`
+// does not verify the certificate).
+func StartTLS() (*Srv, error) {
+	key, err := ecdsa.GenerateKey(elliptic.P256(), rand.Reader)
+	if err != nil {
+		return nil, err
+	}
+	tmpl := x509.Certificate{
+		SerialNumber: big.NewInt(1), Subject: pkix.Name{CommonName: "a20 target"},
+		NotBefore: time.Now().Add(-time.Hour), NotAfter: time.Now().Add(48 * time.Hour),
+		KeyUsage: x509.KeyUsageDigitalSignature, ExtKeyUsage: []x509.ExtKeyUsage{x509.ExtKeyUsageServerAuth},
+		IPAddresses: []net.IP{net.ParseIP("127.0.0.1")},
+	}
+	der, err := x509.CreateCertificate(rand.Reader, &tmpl, &tmpl, &key.PublicKey, key)
+	if err != nil {
+		return nil, err
+	}
+	cert := tls.Certificate{Certificate: [][]byte{der}, PrivateKey: key}
+	return start(grpc.Creds(credentials.NewTLS(&tls.Config{Certificates: []tls.Certificate{cert}})))
+}
+
+func start(extra ...grpc.ServerOption) (*Srv, error) {
 	s := &Srv{}
 	logger := slog.New(slog.NewTextHandler(io.Discard, nil))
-	s.gs = grpc.NewServer(grpc.UnaryInterceptor(s.intercept), grpc.StreamInterceptor(s.streamIntercept))
+	opts := append([]grpc.ServerOption{grpc.UnaryInterceptor(s.intercept), grpc.StreamInterceptor(s.streamIntercept)}, extra...)
+	s.gs = grpc.NewServer(opts...)
 	server.RegisterTargetServiceServer(s.gs, server.NewServer(logger, 1))
 	reflection.Register(s.gs)
 	l, err := net.Listen("tcp", "127.0.0.1:0")
